@@ -58,6 +58,17 @@ func runC18(c *Ctx) {
 		return strings.Join(t, ".")
 	}
 	shapes := []string{"foo.a*b.>", "foo.a*b", "*foo.bar", "x>y.bar.*", "a", "a.b", "a.b.c", "*", ">", "*.a", "a.*", "a.>", "a.*.b", "a.b.*.>", "*.*", "_", "_.a", "a.b.*", "foo.*.bar.>"}
+	// deep subjects: many literal tokens before the first wildcard (and none at all), several tails on the same prefix
+	for _, depth := range []int{7, 8, 9, 15, 16, 17, 20, 31, 32, 33, 64, 100} {
+		var lit []string
+		for i := 0; i < depth; i++ {
+			lit = append(lit, fmt.Sprintf("t%d", i%10))
+		}
+		pre := strings.Join(lit, ".")
+		for _, tail := range []string{"", ".*", ".>", ".*.x", ".*.x.>", ".x.*"} {
+			shapes = append(shapes, pre+tail)
+		}
+	}
 	distinct := map[string]bool{}
 	emit := func(iss, sub, imp string, got string, refused bool, inp map[string]interface{}) {
 		pre := iss + "." + sub + "." + oracleClean(imp)
